@@ -508,9 +508,12 @@ class SimRunner:
 
     def get_output_for(self, time: Time) -> OutputData:
         assert self.outputs is not None
-        for data_time, value in reversed(self.outputs.items()):
-            if data_time <= time:
-                return value
+        # The entries are not necessarily stored in order of their
+        # times (initial data of connections with different time
+        # shifts is inserted in connection order).
+        times = [data_time for data_time in self.outputs if data_time <= time]
+        if times:
+            return self.outputs[max(times)]
 
         return {}
 
